@@ -184,7 +184,7 @@ def rename_overlay_locals(ent, mp):
     e.loops = {n: {"iter": (mp.get(v["iter"], v["iter"]) if v.get("iter") else v.get("iter")), "lines": [f(x) for x in v["lines"]]} for n, v in ent.loops.items()}
     e.prefix = [f(x) for x in ent.prefix]
     e.inserts = [(where, k, f(rx_), [f(y) for y in lines]) for (where, k, rx_, lines) in ent.inserts]
-    e.rewrites = [(f(a), f(b)) for a, b in ent.rewrites]
+    e.rewrites = [tuple([f(rw[0]), f(rw[1])] + list(rw[2:])) for rw in ent.rewrites]
     e.closures = {n: ([f(y) for y in v] if isinstance(v, list) else f(v)) for n, v in ent.closures.items()}
     return e
 
@@ -362,8 +362,11 @@ def _weave_fn(it, ctx, meta, modpath, in_trait_decl=False, degrade=False):
     if not (ent and ent.raw):
         btxt = rules.apply_body_rules(btxt, it, ctx, key, header_text=htxt)
     if ent:
-        for rx, rep in ent.rewrites:
+        for rw in ent.rewrites:
+            rx, rep = rw[0], rw[1]
             new, n = re.subn(rx, rep, btxt)
+            if n == 0 and len(rw) > 2:
+                continue
             if n == 0:
                 raise GenError("lost anchor: @rewrite /%s/ does not match in %s" % (rx, key))
             ctx.log.append({"rule": "R20", "file": ctx.cur_file, "line": it.line, "fn": key, "what": "%d x /%s/ -> %s" % (n, rx, rep)})
@@ -489,6 +492,7 @@ def generate(repo, contracts, twin=False, only=None, force_degrade=None):
         items = rules.expand_derive_clone(items, ctx, modpath)
         items = rules.flatten_fci(items, ctx, modpath)
         items = rules.split_iterators(items, ctx)
+        items = rules.split_operators(items, ctx)
         assign_keys(items, modpath)
         rules.collect_enums(items, ctx)
         rules.collect_hoisted(items, ctx, modpath)
